@@ -402,6 +402,95 @@ fn main() {
             run_case(&spec, &objs, &script, &opts, &shape, false, &mut cr);
             cr
         }));
+        // ---- a stream source whose rewind fails ONCE (a transient I/O error of the caller's Read + Seek) at the start of
+        // one transfer. What the sender does with that one attempt is its business and is not judged (the unchanged tree
+        // counts it as a transfer); what the lifecycle clauses still demand is that the object is not stranded: a
+        // carousel object goes on being retransmitted, a counted object still leaves the sender.
+        let n_sf = ctx.tier.pick(600usize, 40_000);
+        gens.push(Gen::new("transient_source_failure", n_sf, move |ctx, i| {
+            let mut rng = Rng::keyed(ctx.seed, "C12sf", 0, i as u64);
+            let mut cr = CaseResult::default();
+            let mut spec = SenderSpec::new(OtiSpec::new(Fec::NoCode, 1024, 8, 0));
+            spec.full_fdt = rng.chance(1, 2);
+            spec.fdt_carousel = CarouselSpec::DelayMs(3_600_000);
+            spec.queues = vec![(0, rng.below(3) as u32)];
+            let carousel = rng.chance(1, 2);
+            let transfers = rng.range(2, 4) as u32;
+            let fail_at = rng.range(1, transfers as u64 + 1) as usize;
+            let len = rng.range(10, 60) as usize;
+            let mut o = ObjSpec::new(gen_bytes(&mut rng, len), "file:///sf/0");
+            o.oti = Some(OtiSpec::new(Fec::NoCode, 16, 2, 0));
+            o.md5 = false;
+            o.source = SourceSpec::SeekFailsOnce(fail_at);
+            o.max_transfer_count = if carousel { 1 } else { transfers };
+            if carousel {
+                o.carousel = Some(CarouselSpec::DelayMs(*rng.pick(&[0u64, 100, 300])));
+            }
+            let mut objs = vec![o];
+            let mut script = vec![(When::Start, Op::Add(0))];
+            // sometimes a plain second object shares the queue
+            if rng.chance(1, 2) {
+                let mut p = ObjSpec::new(gen_bytes(&mut rng, 40), "file:///sf/1");
+                p.oti = Some(OtiSpec::new(Fec::NoCode, 16, 2, 0));
+                objs.push(p);
+                script.push((When::Start, Op::Add(1)));
+            }
+            script.push((When::Start, Op::Publish));
+            let mut opts = ScriptOpts::every(100, 80);
+            opts.stop_when_empty = !carousel;
+            opts.max_packets = 5000;
+            let run = match util::guarded(|| run_script(&spec, &objs, &script, &opts)) {
+                Ok(Ok(r)) => r,
+                Ok(Err(_)) => return cr,
+                Err(p) => {
+                    cr.violations.push(Violation::new(if p.is_step_budget() { "hang" } else { "panic" }, format!("{} @ {}", p.msg, p.short_loc())).with("site", if p.is_step_budget() { p.step_site() } else { p.file() }).with("gen", "transient_source_failure"));
+                    return cr;
+                }
+            };
+            let toi = match run.tois[0] {
+                Some(t) => t,
+                None => return cr,
+            };
+            let log: Vec<String> = run.seek_logs[0].as_ref().map(|l| l.lock().unwrap().clone()).unwrap_or_default();
+            let failed = log.iter().any(|l| l.contains("fails"));
+            let part = ref_partition(2, len as u128, 16);
+            // complete transfers of the object on the wire
+            let mut complete = vec![];
+            for (s0, e0) in run.transfers_of(toi) {
+                let e0 = e0.unwrap_or(run.stream.len());
+                let have: std::collections::BTreeSet<(u32, u32)> = run.stream[s0..e0].iter().filter(|p| p.toi() == toi).map(|p| (p.dec.sbn, p.dec.esi)).collect();
+                if have.len() as u128 == part.t {
+                    complete.push(s0);
+                }
+            }
+            let last = run.samples.last();
+            let still_added = last.map(|s| s.per_obj.iter().any(|(k, _, added, _)| *k == 0 && *added)).unwrap_or(false);
+            let wit = json!({"sender": run.spec.json(), "carousel": carousel, "transfers": transfers, "failing_seek": fail_at, "source_log": log.iter().take(40).collect::<Vec<_>>(), "complete_transfers_at": complete, "stream": run.summary(40)});
+            if failed {
+                if carousel {
+                    // the horizon (8 s) holds dozens of cycles: at least two complete transfers must follow the failure
+                    let fail_idx = log.iter().position(|l| l.contains("fails")).unwrap_or(0);
+                    let passes_after = log[fail_idx..].iter().filter(|l| l.starts_with("seek_start(0)")).count();
+                    if still_added && passes_after < 2 {
+                        cr.violations.push(Violation::new("carousel_object_stranded", format!("carousel object (TOI {}): its stream failed to rewind once (seek #{}); it is still added but was read again only {} time(s) during the rest of the run ({} complete transfers on the wire in all)", toi, fail_at, passes_after, complete.len()))
+                            .with("carousel", true).witness(wit));
+                    }
+                } else if still_added {
+                    cr.violations.push(Violation::new("counted_object_never_leaves", format!("object with max_transfer_count {} (TOI {}): its stream failed to rewind once (seek #{}); at the end of the run (sender idle) it is still added - {} complete transfers on the wire", transfers, toi, fail_at, complete.len()))
+                        .with("carousel", false).witness(wit));
+                }
+            }
+            cr.count("runs_with_an_injected_seek_failure", failed as u64);
+            cr.count("complete_transfers", complete.len() as u64);
+            if failed {
+                cr.shape = Some(util::fnv(&format!("sf|{}|{}|{}|{}", carousel, transfers, fail_at, objs.len())));
+            }
+            cr.states = vec![util::fnv(&format!("sf|{}|{}", carousel, still_added))];
+            if i % 97 == 0 {
+                cr.sample = Some(json!({"carousel": carousel, "transfers": transfers, "failing_seek": fail_at, "failure_injected": failed, "complete_transfers": complete.len(), "still_added_at_end": still_added}));
+            }
+            cr
+        }));
         gens
     });
 }
